@@ -255,13 +255,24 @@ def make_case(rng, size_hi: int, allow_clash: bool) -> dict:
     with_funcs = rng.random() < 0.45
     with_cond = rng.random() < 0.55
     nrules = rng.choice([1, 1, 2])
-    extra = (["one"] + (["one_1", "one_2"] if rng.random() < 0.5 else [])) if rng.random() < 0.12 else []
+    extra = []
+    if rng.random() < 0.18:  # pre-existing suffixed names, with gaps: the fresh-name search must probe every time
+        extra = ["one"] + [nm for nm in ("one_1", "one_2", "one_3", "one_4") if rng.random() < 0.5]
     host, hist = L.gen_host(rng, rng.randint(2, size_hi), with_funcs, with_cond, extra)
     rules = [gen_rule(rng, i + 1, with_funcs, allow_clash, host) for i in range(nrules)]
+    commute = rng.random() < 0.3
+    if commute:
+        # option product as_function x commute x operand order: present the host's instances in swapped order
+        for sp in rules:
+            r0 = sp["pnodes"][sp["root"]]
+            if r0[0] in L.COMM and r0[1] == "" and len(r0[2]) == 2 and rng.random() < 0.6:
+                sp["pnodes"][sp["root"]] = (r0[0], r0[1], [r0[2][1], r0[2][0]], r0[3], r0[4])
+                sp["swapped_root"] = True
     for i, sp in enumerate(rules):
         if sp["family"] == "passthru" and with_cond:  # in a body the returned value may be an outer one: not rendered by the model
             rules[i] = dict(sp, family="invol", tnodes=[("Identity", "", None, [("v", 0)], 1, [])], touts=[("n", 0, 0)])
-    return {"rules": rules, "host": host.SerializeToString().hex(), "with_cond": with_cond, "with_funcs": with_funcs, "hist": hist}
+    return {"rules": rules, "host": host.SerializeToString().hex(), "with_cond": with_cond, "with_funcs": with_funcs, "hist": hist,
+            "commute": commute}
 
 
 def host_of(case) -> onnx.ModelProto:
@@ -276,7 +287,8 @@ def model_lines(case, modes=("apply", "rewrite")) -> list[str]:
     rt = ["R", str(len(case["rules"]))]
     for s in case["rules"]:
         rt += L.rule_tokens(s)
-    return [" ".join([mode, str(FUEL)] + toks + rt) for mode in modes]
+    sfx = "c" if case.get("commute") else ""
+    return [" ".join([mode + sfx, str(FUEL)] + toks + rt) for mode in modes]
 
 
 def parse_model_answer(line: str):
@@ -331,7 +343,7 @@ def check_case(case, answers: list[str], rng, do_ort: bool, stats: Counter):
     tie, prop = [], []
     for mode, ans in zip(("apply", "rewrite"), answers):
         specs = copy.deepcopy(case["rules"])
-        kind, cnt, out = L.run_real(host, specs, mode)
+        kind, cnt, out = L.run_real(host, specs, mode, commute=bool(case.get("commute")))
         mk, mc, ms = parse_model_answer(ans)
         stats[f"{mode}_cases"] += 1
         if kind == "ERR":
@@ -438,6 +450,27 @@ def corpus() -> list[dict]:
                 pouts=[("n", 0, 0)], inits=[("one", L.init_tok_for("one"))], tnodes=mul_one("Relu"), touts=[("n", 1, 0)])],
                 "host": host([N("Add", ["x", "one"], ["p"]), N("Add", ["p", "one_3"], ["q"]),
                               N("Relu", ["q"], ["a"]), N("Neg", ["a"], ["b"]), N("Relu", ["b"], ["z"])], ["x"], ["z"], inits=i2)})
+    # directed (no finding): names with gaps — `one`, `one_2` (no `one_1`): the second new initializer must probe again
+    ig = [onnx.numpy_helper.from_array(L.ONE * k, nm) for k, nm in enumerate(["one", "one_2"], 2)]
+    out.append({"with_cond": False, "rules": [dict(base, name="r1", family="mulone", pnodes=[("Relu", "", [("v", 0)], 1, [])], root=0,
+                pouts=[("n", 0, 0)], inits=[("one", L.init_tok_for("one"))], tnodes=mul_one("Relu"), touts=[("n", 1, 0)])],
+                "host": host([N("Add", ["x", "one"], ["p"]), N("Add", ["p", "one_2"], ["q"]), N("Relu", ["q"], ["a"]), N("Neg", ["a"], ["b"]),
+                              N("Relu", ["b"], ["c2"]), N("Abs", ["c2"], ["d2"]), N("Relu", ["d2"], ["z"])], ["x"], ["z"], inits=ig)})
+    # directed (no finding): host values already called val_2 and val_4; a two-node replacement fires three times
+    out.append({"with_cond": False, "rules": [dict(base, name="r1", family="reemit",
+                pnodes=[("Neg", "", [("v", 0)], 1, []), ("Relu", "", [("n", 0, 0)], 1, [])], root=1, pouts=[("n", 1, 0)],
+                tnodes=[("Neg", "", None, [("v", 0)], 1, []), ("Relu", "", None, [("n", 0, 0)], 1, [])], touts=[("n", 1, 0)])],
+                "host": host([N("Abs", ["x"], ["val_2"]), N("Neg", ["val_2"], ["n1"]), N("Relu", ["n1"], ["val_4"]), N("Neg", ["val_4"], ["n2"]),
+                              N("Relu", ["n2"], ["r2"]), N("Neg", ["r2"], ["n3"]), N("Relu", ["n3"], ["z"])], ["x"], ["z"])})
+    # directed (no finding): as_function x commute x operand order — the host instance has its operands in the swapped order
+    for asfn_ in (True, False):
+        out.append({"with_cond": False, "commute": True, "rules": [dict(base, name="r1", family="asfn" if asfn_ else "reemit", asfn=asfn_,
+                    pnodes=[("Neg", "", [("v", 0)], 1, []), ("Add", "", [("n", 0, 0), ("v", 1)], 1, [])], root=1, pouts=[("n", 1, 0)],
+                    tnodes=[("NR", "local2", None, [("v", 0), ("v", 1)], 1, [])] if asfn_ else
+                           [("Neg", "", None, [("v", 0)], 1, []), ("Add", "", None, [("n", 0, 0), ("v", 1)], 1, [])],
+                    touts=[("n", 0, 0)] if asfn_ else [("n", 1, 0)])],
+                    "host": host([N("Neg", ["x"], ["n"]), N("Add", ["y", "n"], ["s"]), N("Neg", ["s"], ["m"]), N("Add", ["m", "x"], ["z"])],
+                                 ["x", "y"], ["z"])})
     # regression cases kept from the generated stream (C07-D7, C07-D8; fixed c9666a4): must pass
     cf = core.VERIF / "harness" / "corpus_c07.jsonl"
     if cf.exists():
@@ -548,6 +581,10 @@ def main(run: core.Run) -> None:
             host = host_of(c)
             tie, prop = check_case(c, answers[2 * i: 2 * i + 2], run.rng, i % do_ort_every == 0, stats)
             fam = "+".join(s["family"] + ("" if s["remove"] else "/keep") for s in c["rules"])
+            if c.get("commute"):
+                stats["commute_cases"] += 1
+                if any(s["asfn"] for s in c["rules"]):
+                    stats["commute_asfn_cases"] += 1
             stats["fam_" + fam.split("+")[0]] += 1
             for k, v in c.get("hist", {}).items():
                 stats["host_" + k] += v
@@ -622,7 +659,8 @@ def main(run: core.Run) -> None:
         distribution=dict(stats),
         exhaustive=False,
     )
-    required = ["fam_reemit", "fam_swap", "fam_invol", "fam_mulone", "fam_asfn", "fam_two", "fam_multi", "fam_passthru",
+    stats["commute_cases"] += 0
+    required = ["commute_cases", "host_val_named", "fam_reemit", "fam_swap", "fam_invol", "fam_mulone", "fam_asfn", "fam_two", "fam_multi", "fam_passthru",
                 "host_If", "host_Loop", "host_fn_Neg", "host_Two", "count_1", "count_2", "count_5", "ort_pairs"]
     missing = [k for k in required if not stats[k]]
     run.coverage["required_counters"] = {k: stats[k] for k in required}
